@@ -1,6 +1,7 @@
 (* C05 — MCTP transport header and message-type byte of encoded packets.  Property theorems only. *)
 Require Import Base Crc Bitfield Headers Encode Decode Process Ops Spec Judge.
 Require Import HeaderForms IanaForm PecFacts EncodeFacts DecodeFacts Hist StepsSimple StepsEncode.
+Require Import Readable.
 Open Scope N_scope.
 
 (* (1) in every well-formed history, bytes 4..8 of every successfully encoded packet are
@@ -27,3 +28,15 @@ Proof. vm_compute. reflexivity. Qed.
 Print Assumptions C05_oracle_holds_on_model.
 Print Assumptions C05_transport_header.
 Print Assumptions C05_body_header.
+
+(* ---------- stated directly about an encoder call (no oracle to read) ---------- *)
+(* (4) after any successful encode, bytes 4..8 are: version 1; the destination EID named; own address as source
+   EID; 0xC8; the 7-bit message type of the message the call stands for *)
+Theorem C05_bytes_4_to_8_of_every_encoded_packet : forall ovf g c h id a ls w buf out n,
+  wf_cfg g -> cinv g c -> args_okb h id a ls = true ->
+  encode_call ovf c h id a ls = Some w -> w buf = (out, Val (Some n)) ->
+  exists mt, sub out 4 5 = [1; enc_dest h id a; g_addr g; 200; mt] /\ mt < 128 /\
+    (exists body, model_message h id a ls (c_eid_resp c) = Some (mt, body)).
+Proof. exact bytes_4_to_8. Qed.
+
+Print Assumptions C05_bytes_4_to_8_of_every_encoded_packet.
